@@ -10,6 +10,26 @@ import signal
 
 from common import hexs, exc_line
 
+CONFIG = {
+    "id": "C14",
+    "rule": ("every string of length <= 4 (thorough adds length 5 over rotating 12-symbol sub-alphabets) over the "
+             "27-symbol alphabet of all syntactically significant characters plus a b 1, then seeded random strings "
+             "(character-level, token-level, printable ASCII and non-ASCII) up to length 40; each under "
+             "auto/dot/slash separator x escaped parse, unescaped parse, str(); plus SearchKeywordTerms.parameters.  "
+             "non-trivial = length >= 2; distinct = distinct text (measured with a hash set)."),
+    "trusted_base": [
+        "modelled, not verified: yamlpath/yamlpath.py _parse_path/_expand_splats/original setter/"
+        "_stringify_yamlpath_segments/ensure_escaped, path/*.py __str__ and parameters, enums' str()",
+        "Python str modelled as UTF-8 byte strings: int() on non-ASCII digits, non-ASCII whitespace in strip(), "
+        "and non-ASCII case mapping are outside the modelled domain (generators avoid them)",
+    ],
+    "assumptions": [
+        "the model is the code only as far as the correspondence run shows (zero disagreements on the inputs listed in coverage)",
+        "forced separator settings are installed by assigning YAMLPath._separator, the field the parser reads "
+        "(the constructor argument is overwritten by the `original` setter)",
+    ],
+}
+
 MODES = ("auto", "dot", "slash")
 ALPHABET = ". / \\ [ ] ( ) ' \" & * = ! < > ~ ^ $ % + - , :".split(" ") + [" ", "a", "b", "1"]
 assert len(ALPHABET) == 27, len(ALPHABET)
